@@ -57,7 +57,6 @@ func testCellObligations(base string, r emitRun) []emitObl {
 	return out
 }
 
-
 // ---------------------------------------------------------------- bounded: syntax of emitted test files
 
 // testPrograms: enumerated program shapes for the emitted unit tests (Go and Python test files of the
